@@ -36,6 +36,14 @@ pub fn families() -> Vec<Family> {
         .runs(50_000, 3_000_000)
         .steps(200_000),
         Family::new(
+            "c11_cancel_race",
+            "C11",
+            "2-4 threads cancel one TransferControl with different reasons (plain, or converted slowly) while a producer is parked in wait_for_credit / wait_for_reconnect: the pending wait, every later wait, cancel_reason() and a resume all report one and the same reason",
+            c11_cancel_race,
+        )
+        .runs(60_000, 3_600_000)
+        .steps(100_000),
+        Family::new(
             "c13_history",
             "C13",
             "push/evict/resume/advance/cancel histories on the real replay ring vs. a retained-suffix model",
@@ -402,6 +410,20 @@ fn c12_wake(case: &Case) {
             case.check(sh.cancel_reasons.iter().any(|x| x == r), "bogus-cancel-reason", || {
                 format!("wait reported cancel reason {r:?}, issued reasons {:?}", sh.cancel_reasons)
             });
+            // the first reason wins, for good: what the parked waiter was told is what everybody
+            // is told from now on, however many cancels overlapped
+            let now_reason = ctl.cancel_reason();
+            case.check(now_reason.as_deref() == Some(r), "cancel-reason-changed", || {
+                format!("the parked waiter was told {r:?}; after all signallers finished cancel_reason() says {now_reason:?} (issued: {:?})", sh.cancel_reasons)
+            });
+            let later = match ctl.wait_for_credit(1, Instant::now() + Duration::from_millis(1)) {
+                Err(CreditError::Cancelled(x)) => x,
+                other => format!("{other:?}"),
+            };
+            case.check(later == r, "cancel-reason-changed", || format!("the parked waiter was told {r:?}; a later wait_for_credit reports {later:?}"));
+            if sh.cancel_reasons.len() >= 2 {
+                case.probe("several_cancels_issued");
+            }
         }
         if never && res_str != "cancelled:harness-final" {
             case.fail(
@@ -422,7 +444,93 @@ fn c12_wake(case: &Case) {
 
 // =========================================================================== C11
 
+/// A reason whose conversion to `String` is a scheduling point (and takes simulated time).
+struct NappingReason(String, u64);
+impl From<NappingReason> for String {
+    fn from(r: NappingReason) -> String {
+        thread::sleep(Duration::from_nanos(r.1));
+        r.0
+    }
+}
+
+fn c11_cancel_race(case: &Case) {
+    let reconnect_mode = coin();
+    let ctl = TransferControl::with_replay_capacity(4, 64);
+    ctl.set_peer(peer(1));
+    ctl.record_sent(4); // window full: wait_for_credit(1) parks
+    let n_cancellers = range(2, 4) as usize;
+    let plans: Vec<(u64, u64, bool)> = (0..n_cancellers).map(|_| (pick(&[0u64, 0, 1_000, 50_000]), pick(&[0u64, 1_000, 200_000]), coin())).collect();
+    case.sample(json!({"waiter": if reconnect_mode {"wait_for_reconnect"} else {"wait_for_credit"}, "cancellers": plans.iter().map(|(d, n, slow)| json!({"start_after_ns": d, "slow_reason": slow, "nap_ns": n})).collect::<Vec<_>>()}));
+    let far = Instant::now() + Duration::from_secs(3_600);
+    let w_ctl = ctl.clone();
+    let waiter = thread::spawn(move || -> String {
+        if reconnect_mode {
+            match w_ctl.wait_for_reconnect(Duration::from_secs(3_600)) {
+                ReconnectOutcome::Cancelled(r) => r,
+                other => format!("<{other:?}>"),
+            }
+        } else {
+            match w_ctl.wait_for_credit(1, far) {
+                Err(CreditError::Cancelled(r)) => r,
+                other => format!("<{other:?}>"),
+            }
+        }
+    });
+    let hs: Vec<_> = plans
+        .iter()
+        .enumerate()
+        .map(|(k, (delay, nap, slow))| {
+            let (c, delay, nap, slow) = (ctl.clone(), *delay, *nap, *slow);
+            thread::spawn(move || {
+                thread::sleep(Duration::from_nanos(delay));
+                if slow { c.cancel(NappingReason(format!("reason-{k}"), nap)) } else { c.cancel(format!("reason-{k}")) }
+            })
+        })
+        .collect();
+    for h in hs {
+        h.join().ok();
+    }
+    let Ok(told) = waiter.join() else {
+        case.fail("panic", "waiter panicked");
+        return;
+    };
+    let issued: Vec<String> = (0..n_cancellers).map(|k| format!("reason-{k}")).collect();
+    if !case.check(issued.contains(&told), "cancel-not-reported", || format!("the parked wait returned {told:?}; cancels issued: {issued:?}")) {
+        return;
+    }
+    let now_reason = ctl.cancel_reason();
+    case.check(now_reason.as_deref() == Some(told.as_str()), "cancel-reason-changed", || format!("the pending wait was told {told:?}; afterwards cancel_reason() says {now_reason:?}"));
+    let later_credit = match ctl.wait_for_credit(1, Instant::now()) {
+        Err(CreditError::Cancelled(r)) => r,
+        other => format!("<{other:?}>"),
+    };
+    case.check(later_credit == told, "cancel-reason-changed", || format!("the pending wait was told {told:?}; a later wait_for_credit reports {later_credit:?}"));
+    let later_reconnect = match ctl.wait_for_reconnect(Duration::from_nanos(0)) {
+        ReconnectOutcome::Cancelled(r) => r,
+        other => format!("<{other:?}>"),
+    };
+    case.check(later_reconnect == told, "cancel-reason-changed", || format!("the pending wait was told {told:?}; a later wait_for_reconnect reports {later_reconnect:?}"));
+    let resume = ctl.request_resume(peer(2), 0, 0);
+    case.check(matches!(resume, Err(ResumeRejection::Cancelled)), "resume-after-cancel", || format!("request_resume after cancel returned {resume:?}"));
+    // one more cancel, afterwards: still the first reason
+    ctl.cancel("too-late");
+    let fin = ctl.cancel_reason();
+    case.check(fin.as_deref() == Some(told.as_str()), "cancel-reason-changed", || format!("a later cancel replaced the reason {told:?} by {fin:?}"));
+    case.nontrivial();
+}
+
 /// Reference model of the credit accounting (no repository code).
+/// A file index that is not `cur`: a later one, or an *earlier* one (a late or hostile
+/// acknowledgement / resume for a file that is already finished), or an extreme.
+fn other_file(cur: u32) -> u32 {
+    let f = match simkernel::choose(5) {
+        0 | 1 => cur.wrapping_add(1 + simkernel::choose(3)),
+        2 | 3 => cur.wrapping_sub(1 + simkernel::choose(3)),
+        _ => pick(&[0u32, u32::MAX]),
+    };
+    if f == cur { cur.wrapping_add(1) } else { f }
+}
+
 #[derive(Clone, Debug)]
 struct CreditModel {
     window: u64,
@@ -526,7 +634,7 @@ fn c11_history(case: &Case) {
                 desc = format!("record_sent({o})");
             }
             3..=6 => {
-                let file = if simkernel::choose(5) == 0 { m.file.wrapping_add(1 + simkernel::choose(3)) } else { m.file };
+                let file = if simkernel::choose(5) == 0 { other_file(m.file) } else { m.file };
                 let o = if small { simkernel::choose(7) as u64 } else { small_or_hostile(m.acked) };
                 if file != m.file || o > m.sent {
                     case.probe("hostile_ack");
@@ -567,7 +675,7 @@ fn c11_history(case: &Case) {
                 desc = format!("push_replay(+{d})");
             }
             10 | 11 => {
-                let file = if simkernel::choose(6) == 0 { m.file.wrapping_add(1) } else { m.file };
+                let file = if simkernel::choose(6) == 0 { other_file(m.file) } else { m.file };
                 let off = if small { simkernel::choose(7) as u64 } else { small_or_hostile(next_push) };
                 let r = ctl.request_resume(peer(5), file, off);
                 let expect: Result<u64, ResumeRejection> = if m.cancelled.is_some() {
@@ -759,7 +867,7 @@ fn c11_producer(case: &Case) {
             if hostile_acks {
                 match simkernel::choose(6) {
                     0 => r_ctl.record_ack(file, u64::MAX),
-                    1 => r_ctl.record_ack(file.wrapping_add(1), off),
+                    1 => r_ctl.record_ack(other_file(file), pick(&[off, u64::MAX])),
                     2 => r_ctl.record_ack(file, off.saturating_sub(1)),
                     _ => {}
                 }
@@ -840,7 +948,7 @@ fn c13_history(case: &Case) {
             }
             5..=7 => {
                 // resume at: a pushed boundary (retained or evicted), inside a chunk, trailing edge, far
-                let f = if simkernel::choose(8) == 0 { file + 1 } else { file };
+                let f = if simkernel::choose(8) == 0 { other_file(file) } else { file };
                 let off = match simkernel::choose(6) {
                     0 => next_off,
                     1 => 0,
